@@ -2,7 +2,7 @@
   CRProofs.XsdDocE — C03, the identity constraints: xs:key (ids unique) and xs:keyref (every @ref resolves), generically
   over element trees and for the document tree the modelled writer builds.
 -/
-import CRProofs.XsdDocD
+import CRProofs.XsdDocR
 
 namespace CR.Xsd
 
